@@ -1,12 +1,14 @@
 """C03 - middleware, hooks and responder run in the documented stack order, once each; ASGI lifespan order."""
 PROP = 'C03'
-LEAN_MODULES = ['FalconModel.PipelineProofs', 'FalconModel.HooksLifespanProofs']
+LEAN_MODULES = ['FalconModel.PipelineProofs', 'FalconModel.PipelineSpec', 'FalconModel.HooksLifespanProofs']
 DRIVERS = ['pldriver', 'hkdriver']
 THEOREMS = [
     # falcon/app.py + falcon/asgi/app.py __call__, falcon/app_helpers.py prepare_middleware (model Pl.run)
     'Pl.respLoop_idx', 'Pl.reqIndep_noResp', 'Pl.rsrcLoop_noResp', 'Pl.reqDep_noResp', 'Pl.reqDep_stack', 'Pl.reached_sub',
     'Pl.find_self', 'Pl.enum_nodup',
     'Pl.independent_resp_once', 'Pl.dependent_resp_stack',
+    # the WHOLE call trace equals the documented discipline (FalconModel/PipelineSpec.lean)
+    'Pl.run_eq_spec', 'Pl.respLoop_eq_spec', 'Pl.withFlags_flag', 'Pl.reqDep_topdown', 'Pl.reqDep_done', 'Pl.reqIndep_flags', 'Pl.rsrcLoop_flags', 'Pl.stopAct_ne_ret',
     'Pl.reqIndep_topdown', 'Pl.rsrcLoop_topdown', 'Pl.first_resp_flag',
     # falcon/hooks.py (model Hk.wrap) and the lifespan loop of falcon/asgi/app.py (model Hk.lifespan)
     'Hk.runUntil_snoc', 'Hk.wrap_eq_spec', 'Hk.before_outermost_first', 'Hk.after_innermost_first', 'Hk.hook_raise_skips_rest',
@@ -14,6 +16,8 @@ THEOREMS = [
     'Hk.first_failure_reported_and_stops',
 ]
 STATEMENTS = {
+    'Pl.run_eq_spec': 'for every stack of components, every assignment of return / complete / raise to every method and to the responder, every routing outcome (route, 405, sink, 404) and both middleware modes, the whole sequence of calls the framework makes - including the (resource, req_succeeded) arguments of every process_response - equals specTrace: request methods top-down until one completes or raises; resource methods only after a route match when nothing completed or raised; the responder only if nothing completed or raised; then process_response bottom-up once each (dependent mode: only the components reached), the success flag true iff nothing raised so far',
+    'Pl.withFlags_flag': 'the j-th process_response call gets req_succeeded = (nothing raised before the response phase) and no earlier process_response raised',
     'Pl.independent_resp_once': 'independent_middleware=True: for every stack, route target and action (return / complete / raise) at every call site, the process_response calls in the trace are exactly the components that define it, once each, in reverse registration order',
     'Pl.dependent_resp_stack': 'independent_middleware=False: the process_response calls are exactly the components before the first process_request that ran and raised (those skipped because an earlier one completed included), once each, in reverse order, whatever later stages do',
     'Pl.reqIndep_topdown': 'the independent request loop calls the process_request methods in registration order and stops right after the first one that completes or raises',
@@ -46,10 +50,9 @@ RULE = ('stacks of 0..5 middleware components, each implementing any non-empty s
         'each x both modes x {route, unrouted} (the largest stacks routed only; 4-component stacks alternate between WSGI and ASGI) x WSGI+ASGI; plus random stacks with 0..4 faults; plus ASGI lifespan runs over 0..5 components with any subset '
         'of process_startup/process_shutdown and a failing one anywhere. non-trivial = at least one middleware/hook/lifespan call was made; '
         'distinct = distinct (stack kind, configuration, action assignment)')
-PARTIAL = ('Proved in Lean: the response-method discipline in both modes (exactly once each, bottom-up, dependent prefix), top-down/stop-at-first for the request and resource loops, '
-           'the hook order and the lifespan order. NOT proved as one theorem: equality of the whole request trace with the documented discipline (routing only if clean, responder only if '
-           'nothing completed or raised, req_succeeded at every later process_response) - that part is carried by the correspondence (model = code) plus the independent Python oracle; '
-           'error-handler invocations and the "handler raised a plain exception -> propagates" path are oracle-only.')
+PARTIAL = ('Proved in Lean: the whole call trace of the model equals the documented discipline (Pl.run_eq_spec) in both middleware modes, the hook order and the lifespan order. '
+           'Not modelled in Lean: error-handler invocations inside the trace and the "handler raised a plain exception -> propagates" path (oracle-only); the three actions abstract '
+           'HTTPError / HTTPStatus / handled application errors into one "raise" (their different status codes are judged by the oracle and by C04).')
 JOBS = {'quick': 12, 'thorough': 16}
 
 RAISES = {'http': 403, 'status': 202, 'app_h': 418, 'app_d': 500, 'app_hh': 409, 'app_hs': 299, 'app_he': None}
